@@ -2,7 +2,7 @@
 
 Case = one command line of one tool: {"tool", "argv", "files": {name: text},
 "stdin": None | text, ...}.  For each case the harness
-  1. writes the files into a private directory /tmp/cli_<pid>/<n>/ and makes
+  1. writes the files into a private directory <scratch>/cli_<pid>/<n>/ and makes
      it the working directory (so names on the command line are relative);
   2. asks the real argparse (the tool's processcli()) for the parsed options;
   3. computes the LIBRARY-LEVEL results with the real library on fresh loads
@@ -93,7 +93,8 @@ def init_worker():
     from ruamel.yaml.comments import CommentedSet, CommentedMap, CommentedSeq, TaggedScalar
     from yamlpath.patches.timestamp import AnchoredTimeStamp, AnchoredDate
     mods = {t: importlib.import_module("yamlpath.commands." + m) for t, m in TOOLS.items()}
-    base = "/tmp/cli_%d" % os.getpid()
+    import tempfile
+    base = os.path.join(tempfile.gettempdir(), "cli_%d" % os.getpid())     # under the run's scratch directory (TMPDIR set by ./check)
     shutil.rmtree(base, ignore_errors=True)
     os.makedirs(base, exist_ok=True)
     _ENV.update(P=P, Parsers=Parsers, Nodes=Nodes, ConsolePrinter=ConsolePrinter, NodeCoords=NodeCoords,
